@@ -105,3 +105,9 @@ Theorem C20_schedule_eq_serial : forall docs bs ix cg ops outs p0 queries pgs s,
   = results (snd (run_sched p0 (map spawn pgs) (serial_schedule (map spawn pgs)))) /\
   results (snd (run_sched p0 (map spawn pgs) s)) = map (answer_of p0) queries.
 Proof. exact indexed_C20_any. Qed.
+
+(* Assumptions of the remaining named statements of this file (the gate requires one per statement). *)
+Print Assumptions C20_schedule_eq_serial_partial.
+Print Assumptions C20_indexed_schedule_eq_serial.
+Print Assumptions C20_indexed_fresh.
+Print Assumptions C20_schedule_eq_serial.
